@@ -91,6 +91,8 @@ pub struct SynthCase {
     pub design: Option<Design>,
     /// structured form of a `ram` case (for minimisation)
     pub ram_spec: Option<(RamSpec, Streams)>,
+    /// hand-templated shape (`shape_tpl`): (label, key of the known finding it contains)
+    pub tpl: Option<(String, Option<&'static str>)>,
     pub stim: Stimulus,
     pub clock: ClockKind,
     pub reset: ResetKind,
@@ -276,6 +278,7 @@ pub fn gen_design_case(d: &mut Draw, known_per_mille: u32) -> SynthCase {
         text,
         design: Some(g.design),
         ram_spec: None,
+        tpl: None,
         stim,
         clock,
         reset,
@@ -301,6 +304,7 @@ pub fn ram_case_of(spec: &RamSpec, streams: &Streams, clock: ClockKind, reset: R
         text: r.text,
         design: None,
         ram_spec: Some((spec.clone(), streams.clone())),
+        tpl: None,
         stim,
         clock,
         reset,
@@ -352,7 +356,37 @@ pub fn gen_case(d: &mut Draw) -> SynthCase {
 
 /// `known_per_mille`: rate at which trigger shapes of known findings are kept
 pub fn gen_case_with(d: &mut Draw, known_per_mille: u32) -> SynthCase {
-    if d.chance(2, 5) { gen_ram_case(d, known_per_mille) } else { gen_design_case(d, known_per_mille) }
+    // families: vdesign designs, memory modules, and the three hand-templated shape families (each >= 8 %)
+    match d.weighted(&[36, 28, 13, 11, 12]) {
+        0 => gen_design_case(d, known_per_mille),
+        1 => gen_ram_case(d, known_per_mille),
+        k => gen_tpl_case(d, k, known_per_mille),
+    }
+}
+
+pub fn gen_tpl_case(d: &mut Draw, which: usize, known_per_mille: u32) -> SynthCase {
+    let (clock, reset) = gen_types(d);
+    let t = match which {
+        2 => crate::shape_tpl::gen_mux(d),
+        3 => crate::shape_tpl::gen_shift(d, known_per_mille),
+        _ => crate::shape_tpl::gen_arith(d, clock.type_name(), reset.type_name()),
+    };
+    let library = *d.pick(&LIBRARIES);
+    let ram = gen_ram_config(d, &[]);
+    SynthCase {
+        family: "template",
+        text: t.text,
+        design: None,
+        ram_spec: None,
+        tpl: Some((t.label, t.known)),
+        stim: t.stim,
+        clock,
+        reset,
+        library,
+        ram,
+        classes: t.classes,
+        arrays: vec![],
+    }
 }
 
 // ---------------------------------------------------------------------------
